@@ -49,7 +49,8 @@ G3a == { [fam |-> "G3", sig |-> WithIntro(RawHdr(1, 3), iv), hdr |-> NomHdr, pay
            : iv \in IntroVar, pd \in {0, 170} }
 G3b == { [fam |-> "G3", sig |-> RawHdr(1, 3), hdr |-> WithIntro(NomHdr, iv), payload |-> 1, pad |-> 0]
            : iv \in IntroVar }
-LeadVar == { <<>> } \cup { << <<p, v>> >> : p \in {0, 3, 4, 5, 6, 7, 8, 9, 10, 75, 76, 77, 78, 79, 80, 95}, v \in {0, 1, 255} }
+\* (the last variant fills all 66 bytes of the name field: a name without terminator)
+LeadVar == { <<>>, [i \in 1..66 |-> <<9 + i, 65>>] } \cup { << <<p, v>> >> : p \in {0, 3, 4, 5, 6, 7, 8, 9, 10, 75, 76, 77, 78, 79, 80, 95}, v \in {0, 1, 255} }
 G3c == { [fam |-> "G3", sig |-> RawHdr(ns, ds), hdr |-> NomHdr, payload |-> p, pad |-> 0, lead |-> lv]
            : lv \in LeadVar, ns \in {0, 1}, ds \in {0, 3}, p \in {0, 9} }
 
